@@ -14,6 +14,7 @@ From LzVerif Require Import Base.Bytes Codec.Store Codec.Range Codec.LzWindow Co
   Codec.Lzma2Dec Codec.Lzma2SpecProofs Codec.Lzma2FrameSyncProofs Codec.Lzma2ReadProofs
   Codec.TruncProofs Codec.TruncLzma1Proofs Codec.TruncLzma2Proofs
   Format.LzipFormat Format.LzipProofs Format.LzipSoundProofs Format.TruncLzipProofs
+  Format.XzFormat Format.XzProofs Format.TruncXzProofs
   Filter.Delta Filter.DeltaProofs Filter.Bcj Filter.BcjStream Filter.BcjStreamProofs Filter.BcjAllProofs.
 
 (* ============================================================================================ *)
@@ -261,6 +262,60 @@ Example C05_lzip_codec_exists :
 Proof. exact truncating_payload_codec_exists. Qed.
 Example C05_lzip_truncated_examples : True.
 Proof. pose proof lzip_truncated_single_example. pose proof lzip_truncated_multi_example. exact I. Qed.
+
+(* ============================================================================================ *)
+(* 4b. XZ container (whole-file reader model xz_decode), check function H and block decoder
+   abstract.  [trx f rt rf]: the step over the truncated input (rt) fails with an error, or the step
+   over the complete input (rf) is the same step with the cut-off bytes left unread (f appends them).
+   Hypotheses on the block decoder: it has this property and it only consumes input.  Then: a file
+   accepted in single-stream mode with nothing left unread has NO accepted proper prefix - every
+   one (the empty one included) is rejected with an error, with multi-stream decoding on or off.
+   Every parser of the reader (stream header, block header, padding, check, index, footer) is
+   proved to have the [trx] property for arbitrary input. *)
+Theorem C05_xz_truncated :
+  forall (tl : list Z) (H : Z -> list Z -> list Z) (blockdec : list (fkind * Z) -> list Z -> outcome (list Z * list Z)),
+  (forall fs src, trx (rapp tl) (blockdec fs src) (blockdec fs (src ++ tl))) ->
+  (forall fs src c r, blockdec fs src = Ok (c, r) -> (length r <= length src)%nat) ->
+  forall fx p d, tl <> [] ->
+    xz_decode H blockdec fx false (p ++ tl) = Ok (d, []) ->
+    forall multi, exists e, xz_decode H blockdec fx multi p = Err e.
+Proof. exact xz_truncated_gen. Qed.
+Print Assumptions C05_xz_truncated.
+
+(* every file XZWriter produces (any options a caller may configure, any partition into write()
+   calls), cut anywhere: rejected.  Payload / filter codecs abstract as in C02 (round trip with
+   exact consumption; filters inverse) plus the two decoder properties above. *)
+Theorem C05_xz_truncated_written :
+  forall (penc : Z -> list Z -> list Z) (pdec : Z -> list Z -> outcome (list Z * list Z)),
+  (forall d dd x tail, d <= dd -> pdec dd (penc d x ++ tail) = Ok (x, tail)) ->
+  (forall tl dd src, trx (rapp tl) (pdec dd src) (pdec dd (src ++ tl))) ->
+  (forall dd src x r, pdec dd src = Ok (x, r) -> (length r <= length src)%nat) ->
+  forall (fenc fdec : fkind -> Z -> list Z -> list Z),
+  (forall k p x, fdec k p (fenc k p x) = x) ->
+  forall o0 parts f p tl multi, stream_ok o0 ->
+    xz_encode penc fenc xz_fixed o0 parts = Ok f ->
+    f = p ++ tl -> tl <> [] ->
+    exists e, xz_decode xz_check_bytes (blockdec pdec fdec) xz_fixed multi p = Err e.
+Proof. exact xz_truncated_written. Qed.
+Print Assumptions C05_xz_truncated_written.
+
+(* the LZMA2Reader model read to its end (any budget of 4096-byte read() calls) has the [trx]
+   property assumed of the payload decoder *)
+Theorem C05_lzma2_payload_truncated_step : forall calls tl dict src,
+  trx (rapp tl) (lzma2_payload_dec_n calls dict src) (lzma2_payload_dec_n calls dict (src ++ tl)).
+Proof. exact lzma2_payload_dec_n_trx. Qed.
+Print Assumptions C05_lzma2_payload_truncated_step.
+
+(* non-vacuity: a payload codec with all three hypotheses exists; a written two-block file
+   (Delta + payload, CRC32) is rejected at every one of its cut points in both modes *)
+Example C05_xz_codec_exists :
+  exists (penc : Z -> list Z -> list Z) (pdec : Z -> list Z -> outcome (list Z * list Z)),
+    (forall d dd x tail, d <= dd -> pdec dd (penc d x ++ tail) = Ok (x, tail)) /\
+    (forall tl dd src, trx (rapp tl) (pdec dd src) (pdec dd (src ++ tl))) /\
+    (forall dd src x r, pdec dd src = Ok (x, r) -> (length r <= length src)%nat).
+Proof. exact truncating_xz_codec_exists. Qed.
+Example C05_xz_truncated_example : True.
+Proof. pose proof xz_truncated_example. pose proof ex_trunc_stream_ok. exact I. Qed.
 
 (* ============================================================================================ *)
 (* 5. Filters over a faulty / chopping inner reader (shared with C11).
